@@ -972,3 +972,9 @@ def stale_variant(task, tier):
     """Tasks that are also run on meshes with a stale attribute blackboard (mc/families.py STALE; the runner appends
     ':stale_attribute_blackboard' to the input class of anything found there)."""
     return bool(task.get("kind") == "grid" or (task.get("kind") == "graph" and task.get("nmax", 9) <= 4) or (task.get("kind") == "surf" and task.get("family") == "surf<=4"))
+
+
+def dupflag_variant(task, tier):
+    """Tasks that are also run with config.display_duplicate_attribute_warning = True (the runner appends
+    ':duplicate_attribute_flag' to the input class of anything found there)."""
+    return bool(task.get("kind") == "grid")
